@@ -18,7 +18,7 @@ DRIVER_DIR = os.path.join(VERIF, 'driver')
 DRIVER = os.path.join(DRIVER_DIR, 'target', 'release', 'pie-facts')
 CACHE = os.path.join(VERIF, '.cache')
 
-MEMBERS = ['pie', 'pie_graph', 'dev_ext', 'dev_util']
+MEMBERS = ['pie', 'pie_graph', 'dev_ext', 'dev_util', 'engine_fixture']
 
 # name -> (cargo args, member crates expected in the output)
 CONFIGS = {
@@ -28,6 +28,8 @@ CONFIGS = {
     'all-targets': (['--workspace', '--all-features', '--all-targets'], ['pie', 'pie_graph', 'dev_ext', 'dev_util']),
     'pie-default': (['-p', 'pie'], ['pie', 'pie_graph']),
     'graph-noserde': (['-p', 'pie_graph', '--no-default-features'], ['pie_graph']),
+    # the engine self-check crate (/verif/fixtures/engine_fixture)
+    'fixture': ([], ['engine_fixture']),
 }
 
 
